@@ -5,7 +5,8 @@
     instruction sequence over the declared opcodes (no length bound). *)
 From RV Require Import Model.Base Model.Spirv Model.Grammar Model.Reflect Model.Module Model.Inst Model.Parser Model.Loader.
 From RV Require Import Spec.Layout Spec.LayoutClass Proofs.LoaderFacts.
-From RV Require Import Gen.SpirvData Gen.ReflectData Gen.LoaderData Inst.Linked Inst.C05_inst.
+From RV Require Import Gen.SpirvData Gen.ReflectData Gen.LoaderData Inst.Linked Inst.C05_inst Inst.Run Proofs.LoadBytesFacts.
+From RV Require Import Model.Decoder.
 
 Theorem C05_loader_arms_link :
   link_larms op_enum loader_arms_raw = Some loader_arms /\ loader_translation_failures = [].
@@ -75,6 +76,38 @@ Theorem C05_variable_global_iff_no_function_open :
     (In i (section_insts (l_module s) 10) <-> l_function s_pre = None).
 Proof. exact real_placement_varundef. Qed.
 
+(** ---- from bytes: dr::load_bytes = parse to the instruction stream, then the loader ----
+    [scan_bytes G bytes] is the header and the instruction list the parser
+    delivers, with how the stream ends; [load_case] is parser + loader consumer. *)
+Theorem C05_load_accepts_iff_stream_complete_and_well_bracketed :
+  forall bytes, snd (load_case bytes) = Ok tt <->
+  exists h is, scan_bytes G bytes = (Some h, is, Ok tt) /\ WB (toks is).
+Proof. exact accepted_iff. Qed.
+
+Theorem C05_loaded_module_is_the_fed_one :
+  forall bytes h is s, scan_bytes G bytes = (Some h, is, Ok tt) -> real_load is = LCont s ->
+  load_case bytes = ({| lw_state := with_header h s; lw_panic := false |}, Ok tt).
+Proof. exact accepted_state. Qed.
+
+(** the result of loading any byte string: the first structural offence in
+    stream order, else the parse error, else the unclosed block/function, else success *)
+Theorem C05_load_result_classified :
+  forall bytes h is r, scan_bytes G bytes = (Some h, is, r) ->
+  snd (load_case bytes) =
+  match brk_run (false, false) (toks is) with
+  | inr e => Er (PConsumerError (lerr_code e))
+  | inl _ =>
+      match r with
+      | Ok _ => match first_error (toks is) with
+                | None => Ok tt
+                | Some e => Er (PConsumerError (lerr_code e))
+                end
+      | Er e => Er e
+      | Panic p => Panic p
+      end
+  end.
+Proof. exact load_case_classification. Qed.
+
 (** non-vacuity *)
 Example C05_nonvacuous :
   length opcodes = 787%nat /\
@@ -95,3 +128,6 @@ Print Assumptions C05_sections_exact.
 Print Assumptions C05_module_level_in_its_section.
 Print Assumptions C05_variable_global_iff_no_function_open.
 Print Assumptions C05_nonvacuous.
+Print Assumptions C05_load_accepts_iff_stream_complete_and_well_bracketed.
+Print Assumptions C05_loaded_module_is_the_fed_one.
+Print Assumptions C05_load_result_classified.
